@@ -352,4 +352,67 @@ func genC16(e *emitter, tier string) {
 		}
 		e.line(fmt.Sprintf("(c16.pe %s %s %s)", sexpPE(pe), res, indS))
 	}
+	// the fields of a key may come in any order in the serialised form
+	keys := []fieldpath.PathElement{
+		peKey("name", "a", "id", int64(3)),
+		peKey("ip", "10.0.0.1", "port", int64(443), "protocol", "tcp"),
+		peKey("a", int64(1), "b", true, "c", "x", "d", 1.5),
+	}
+	for _, pe := range keys {
+		fields := *pe.Key
+		idx := make([]int, len(fields))
+		for i := range idx {
+			idx[i] = i
+		}
+		var perms [][]int
+		var rec func(k int)
+		rec = func(k int) {
+			if k == len(idx) {
+				perms = append(perms, append([]int{}, idx...))
+				return
+			}
+			for i := k; i < len(idx); i++ {
+				idx[k], idx[i] = idx[i], idx[k]
+				rec(k + 1)
+				idx[k], idx[i] = idx[i], idx[k]
+			}
+		}
+		rec(0)
+		canonical, _ := fieldpath.SerializePathElement(pe)
+		for _, perm := range perms {
+			var sb strings.Builder
+			sb.WriteString("k:{")
+			for j, i := range perm {
+				if j > 0 {
+					sb.WriteByte(',')
+				}
+				vb, _ := value.ToJSON(fields[i].Value)
+				nb, _ := json.Marshal(fields[i].Name)
+				sb.Write(nb)
+				sb.WriteByte(':')
+				sb.Write(vb)
+			}
+			sb.WriteString("}")
+			res, again := "err", "-"
+			func() {
+				defer func() {
+					if r := recover(); r != nil {
+						res = "panic"
+					}
+				}()
+				back, derr := fieldpath.DeserializePathElement(sb.String())
+				if derr == nil {
+					res = sexpPE(back)
+					if s2, err := fieldpath.SerializePathElement(back); err == nil {
+						again = sexpBool(s2 == canonical)
+					}
+				}
+			}()
+			// and as a member of a set
+			kb, _ := json.Marshal(sb.String())
+			doc := []byte("{\"f:l\":{" + string(kb) + ":{\"f:z\":{}}}}")
+			e.line(fmt.Sprintf("(c16.keyorder %s %s %s %s %s)", sexpPE(pe), res, again,
+				sexpPaths([]fieldpath.Path{{peField("l"), pe, peField("z")}}), fromJSON(doc)))
+		}
+	}
 }
